@@ -363,45 +363,35 @@ theorem no_temp_left (xs : List Txn) : ∀ (s : State) (rms : List Path),
         exact hfresh.2.2 x (by simp) y (by simp [hy]) hyt.symm
     · exact ih (endState s x) rms (fresh_end s x r hfresh) t htr
 
-/-! ### Clean removes only what the listing allows -/
+/-! ### Clean removes only what carries this sub-command's per-type header -/
 
-theorem cleanLoop_removable (cmd : Cmd) (dp gf : String) (l : List FileInfo) (h : listingWF cmd dp gf l = true) :
-    ∀ n ∈ (cleanLoop cmd dp gf l).1, ∃ f ∈ l, f.name = n ∧ removable cmd f = true := by
+theorem cleanLoop_removable (cmd : Cmd) (gf : String) (l : List FileInfo) :
+    ∀ n ∈ cleanLoop cmd gf l, ∃ f ∈ l, f.name = n ∧ globMatch cmd f.name = true ∧ removable cmd f = true := by
   induction l with
   | nil => intro n hn; simp [cleanLoop] at hn
   | cons f r ih =>
-    simp only [listingWF, List.all_cons, Bool.and_eq_true] at h
-    have ihr := ih (by simpa [listingWF] using h.2)
     intro n hn
+    have lift : n ∈ cleanLoop cmd gf r → ∃ g ∈ f :: r, g.name = n ∧ globMatch cmd g.name = true ∧ removable cmd g = true := by
+      intro h'; obtain ⟨g, hgm, hgn⟩ := ih n h'; exact ⟨g, by simp [hgm], hgn⟩
     unfold cleanLoop at hn
-    by_cases hg : globMatch cmd f.name = true
-    · simp only [hg, Bool.not_true, Bool.false_eq_true, ↓reduceIte] at hn
-      by_cases hgf : (dp ++ f.name == gf) = true
-      · simp only [hgf, ↓reduceIte] at hn
-        obtain ⟨g, hgm, hgn⟩ := ihr n hn
-        exact ⟨g, by simp [hgm], hgn⟩
-      · simp only [hgf, Bool.false_eq_true, ↓reduceIte] at hn
-        cases hfl : f.firstLine with
-        | none => simp [hfl] at hn
-        | some line =>
-          simp only [hfl] at hn
-          by_cases ha : isAIOLine line = true
-          · simp only [ha, ↓reduceIte] at hn
-            obtain ⟨g, hgm, hgn⟩ := ihr n hn
-            exact ⟨g, by simp [hgm], hgn⟩
-          · simp only [ha, Bool.false_eq_true, ↓reduceIte, List.mem_cons] at hn
+    split at hn
+    · exact lift hn
+    · rename_i hg
+      split at hn
+      · exact lift hn
+      · split at hn
+        · exact lift hn
+        · rename_i hgen
+          split at hn
+          · exact lift hn
+          · rename_i haio
+            simp only [List.mem_cons] at hn
             rcases hn with rfl | hn
-            · refine ⟨f, by simp, rfl, ?_⟩
-              have h1 := h.1
-              simp only [hg, Bool.not_true, Bool.false_or, hgf, hfl] at h1
-              simp only [removable, hfl]
-              simp only [Bool.not_eq_true] at ha
-              simp [ha] at h1 ⊢
-              exact h1
-            · obtain ⟨g, hgm, hgn⟩ := ihr n hn
-              exact ⟨g, by simp [hgm], hgn⟩
-    · simp only [hg, Bool.not_false, ↓reduceIte] at hn
-      obtain ⟨g, hgm, hgn⟩ := ihr n hn
-      exact ⟨g, by simp [hgm], hgn⟩
+            · refine ⟨f, by simp, rfl, by simpa using hg, ?_⟩
+              have hgen' : isGenLine cmd f.firstLine = true := by simpa using hgen
+              have haio' : isAIOLine f.firstLine = false := by simpa using haio
+              simp only [isGenLine, Bool.and_eq_true] at hgen'
+              simp only [removable, generatedBy, hgen'.1, haio', Bool.not_false, Bool.and_self]
+            · exact lift hn
 
 end ShootVerif.Fs
